@@ -211,13 +211,15 @@ def run_check():
     ck.do_audit()
     import_ws()
     n = 150 if ck.tier == "quick" else 2500
-    hs = pmap(make_history, [(ck.seed, i) for i in range(n)])
+    from ..common import replay_ids
+
+    hs = pmap(make_history, [(ck.seed, i) for i in replay_ids(ck, n)])
     resps = run_driver([f"history {len(h['ops'])} " + " ".join(h["ops"]) for h in hs])
     nobs = 0
     sub_jobs = []
     for h, resp in zip(hs, resps):
         toks = resp.split()
-        case = dict(kind=h["kind"], ops=h["ops"], freq=h["freq"].tolist(), n_efth_versions=len(h["evers"]), n_dir_versions=len(h["dvers"]))
+        case = dict(icase=h["icase"], kind=h["kind"], ops=h["ops"], freq=h["freq"].tolist(), n_efth_versions=len(h["evers"]), n_dir_versions=len(h["dvers"]))
         if toks[0] != "ok" or len(toks) - 1 != len(h["ops"]):
             ck.disagree("history", f"model response {resp[:200]}", case)
             continue
